@@ -138,6 +138,7 @@ class CommandMixin(object):
         rec["any"] = wall
         if accepted:
             rec["act"] = wall
+            rec["act_t"] = getattr(self, "cur_t", None)     # the same instant on the monotonic clock
 
     def _f7(self, sub, app, mid):
         """known finding F7: the id lives in another app (mailboxes.id is a global key)"""
